@@ -1246,11 +1246,14 @@ func (repo *Repository) load(ctx context.Context, depth int) error {
 	if len(branches) == 0 {
 		return errors.New("No branches loaded")
 	}
-	repo.longest = branches.Longest()
+	// Keep the stored order, which decides between branches with equal work.
+	stored := make(Branches, len(branches))
+	copy(stored, branches)
 
 	// Connect branches to parents
 	sort.Sort(branches)
 	repo.branches = nil
+	dropped := make(map[*Branch]bool)
 	for _, branch := range branches {
 		if branch.parentHeight == -1 {
 			// main branch
@@ -1264,12 +1267,25 @@ func (repo *Repository) load(ctx context.Context, depth int) error {
 				logger.String("branch_name", branch.Name()),
 				logger.Stringer("previous_block_hash", branch.PreviousHash()),
 			}, "Failed to link loaded branch : %s", err)
+			dropped[branch] = true
 			continue
 		}
 
 		repo.branches = append(repo.branches, branch)
 		repo.loadBranchHashHeights(ctx, branch)
 	}
+
+	// The longest branch must be one of the branches that were kept.
+	kept := make(Branches, 0, len(stored))
+	for _, branch := range stored {
+		if !dropped[branch] {
+			kept = append(kept, branch)
+		}
+	}
+	if len(kept) == 0 {
+		return errors.New("No branches linked")
+	}
+	repo.longest = kept.Longest()
 
 	if err := repo.loadHistoricalHashHeights(ctx); err != nil {
 		return errors.Wrap(err, "historical heights")
